@@ -41,18 +41,23 @@ def merge (a b : Class) : Class :=
   else if a = .x87 ∨ a = .x87up ∨ a = .complexX87 ∨ b = .x87 ∨ b = .x87up ∨ b = .complexX87 then .memory
   else .sse
 
+/-- `f 0 ++ f 1 ++ .. ++ f (n-1)` -/
+def concatBelow {α : Type} : Nat → (Nat → List α) → List α
+  | 0, _ => []
+  | n+1, f => concatBelow n f ++ f n
+
 mutual
 /-- every scalar of the member tree with its byte offset, in declaration order -/
 def leaves : ATy → Nat → List (Nat × ATy)
   | .agg _ _ _ ms, off => leavesMs ms off
-  | .arr e n, off => leavesArr e n off
-  | t, off => [(off, t)]
+  | .arr e n, off => concatBelow n (fun i => leaves e (off + e.size * i))
+  | .int s u b, off => [(off, .int s u b)]
+  | .flt, off => [(off, .flt)]
+  | .dbl, off => [(off, .dbl)]
+  | .ldbl, off => [(off, .ldbl)]
 def leavesMs : Members → Nat → List (Nat × ATy)
   | .nil, _ => []
   | .cons o t r, off => leaves t (off + o) ++ leavesMs r off
-def leavesArr : ATy → Nat → Nat → List (Nat × ATy)
-  | _, 0, _ => []
-  | e, n+1, off => leavesArr e n off ++ leaves e (off + e.size * n)
 end
 
 /-- classes of the eightbytes a scalar occupies -/
@@ -73,11 +78,10 @@ def mergeAt : List Class → Nat → List Class → List Class
 def hasUnaligned (ty : ATy) : Bool :=
   (leaves ty 0).any (fun (o, t) => o % t.align != 0)
 
-/-- X87UP must directly follow X87 -/
+/-- every X87UP directly follows an X87 (the first eightbyte is checked by `postMerger`) -/
 def x87upOk : List Class → Bool
-  | [] => true
-  | [c] => c != .x87up
   | a :: b :: rest => (b != .x87up || a == .x87) && x87upOk (b :: rest)
+  | _ => true
 
 def postMerger (cs : List Class) (size : Nat) : List Class :=
   if cs.contains .memory then [.memory]
